@@ -1716,9 +1716,6 @@ def write_table():
                 rows[(cname, q)] = sorted(w)
     return [(c, q, rows[(c, q)]) for c in order for q in names[c] if (c, q) in rows]
 
-MECH_TRIMESH = ("from_tri_mask", "_isolated_mask", "tri_areas", "boundary_tri_index", "edge_indices", "unique_edge_indices",
-                "edge_vectors", "edge_lengths", "unique_edge_vectors", "unique_edge_lengths", "mean_edge_length", "mean_tri_area",
-                "tri_normals", "vertex_normals", "as_pointgraph")
 SUPPLIED = ("_isolated_mask", "as_pointgraph", "boundary_tri_index", "copy", "edge_indices", "edge_lengths", "edge_vectors",
             "from_mask", "from_tri_mask", "mean_edge_length", "mean_tri_area", "tri_areas", "tri_normals",
             "unique_edge_indices", "unique_edge_lengths", "unique_edge_vectors", "vertex_normals")
@@ -1728,8 +1725,6 @@ def mechanism_tables():
     """(suppliers, mechanism): which class of the MRO defines each modelled method for the three mesh classes, and the
     names referenced by the body of every function the model transcribes branch for branch (code object co_names)"""
     from menpo.shape import TriMesh, ColouredTriMesh, TexturedTriMesh
-    import menpo.shape.mesh.normals as N
-    import menpo.shape.adjacency as A
     import menpo.shape.mesh.base as B
 
     def names(f):
@@ -1738,19 +1733,13 @@ def mechanism_tables():
     sup = []
     for cls in (TriMesh, ColouredTriMesh, TexturedTriMesh):
         sup.append((cls.__name__, [(m, next((k.__name__ for k in cls.__mro__ if m in vars(k)), "?")) for m in SUPPLIED]))
+    # only the bodies that are still transcribed by hand: everything else is translated from the source text on every
+    # run (harness/trans_c17.py) and proved equal to the model, which supersedes a fingerprint of referenced names
     mech = []
-    for cls in (TriMesh, ColouredTriMesh, TexturedTriMesh):
-        f = vars(cls).get("from_mask")
-        mech.append((cls.__name__ + ".from_mask", names(f) if f is not None else ["<inherited>"]))
-    for m in MECH_TRIMESH:
-        f = vars(TriMesh).get(m)
-        mech.append(("TriMesh." + m, names(f) if f is not None else ["<missing>"]))
-    for mod, fs in ((A, ("mask_adjacency_array", "reindex_adjacency_array")),
-                    (N, ("_normalize", "compute_face_normals", "compute_vertex_normals")),
-                    (B, ("subsampled_grid_triangulation", "trilist_to_adjacency_array"))):
-        for fn in fs:
-            f = getattr(mod, fn, None)
-            mech.append((fn, names(f) if f is not None else ["<missing>"]))
+    f = vars(TriMesh).get("as_pointgraph")
+    mech.append(("TriMesh.as_pointgraph", names(f) if f is not None else ["<missing>"]))
+    f = getattr(B, "subsampled_grid_triangulation", None)
+    mech.append(("subsampled_grid_triangulation", names(f) if f is not None else ["<missing>"]))
     return sup, mech
 
 
